@@ -348,6 +348,14 @@ func run(w http.ResponseWriter, r *http.Request, o *Obs, h *H) {
 				w.WriteHeader(s.N)
 			case "W":
 				w.Write([]byte(strings.Repeat("x", s.N)))
+			case "Wchk": // a careful writer: gives up when Write does not report exactly what it was given
+				if n, err := w.Write([]byte(strings.Repeat("x", s.N))); n != s.N || err != nil {
+					return
+				}
+			case "IfH": // reads one of its own response headers back and writes only if it has the value
+				if w.Header().Get(s.K) == s.V {
+					w.Write([]byte(strings.Repeat("x", s.N)))
+				}
 			case "Set":
 				w.Header().Set(s.K, s.V)
 			case "Del":
@@ -390,6 +398,7 @@ type Req struct {
 	Multi   map[string][]string // further field lines of a header (a list header may be spread over several lines)
 	Gone    bool                // the request's context is already cancelled (the client went away)
 	Flusher bool                // the server's writer offers http.Flusher (net/http's does; many wrappers do not)
+	PreVary string              // a Vary member a handler in front of the router has already put on the response
 	Fault   *Fault
 }
 
@@ -403,6 +412,9 @@ func (q Req) String() string {
 	}
 	if q.URLHost != "" {
 		s += " url.host=" + q.URLHost
+	}
+	if q.PreVary != "" {
+		s += " response-already-has-vary=" + q.PreVary
 	}
 	if q.Gone {
 		s += " (context cancelled)"
@@ -464,6 +476,9 @@ func Serve(s http.Handler, q Req) *Obs {
 	o := &Obs{}
 	w := NewWriter()
 	r := NewRequest(q, o)
+	if q.PreVary != "" {
+		w.H.Add("Vary", q.PreVary)
+	}
 	var rw http.ResponseWriter = w
 	if q.Flusher {
 		rw = &FlushWriter{w}
